@@ -361,6 +361,12 @@ func (s *Scanner) Scan() (Token, error) {
 		}
 	}
 
+	if token == ch && yyPrivate <= int(ch) && int(ch) < yyPrivate+len(yyTok2) {
+		// goyacc numbers the named tokens from yyPrivate (U+E000) on: a raw character with such a code point is
+		// not that token, it is a character the grammar does not know
+		token = yyPrivate - 1
+	}
+
 	return Token{Token: int(token), Literal: literal, Quoted: quoted, Line: line, Char: char, SourceFile: s.sourceFile}, err
 }
 
